@@ -432,7 +432,13 @@ fn derive_call_shape(def: &CallDef, symbol_table: &mut BTreeMap<Rc<str>, Shape>)
                     if let Shape::TypeErr(pos, msg) =
                         declared_shape.narrow(&actual_shape, &mut scratch)
                     {
-                        return Shape::TypeErr(pos, msg);
+                        // An argument that is itself in error keeps its position.
+                        // A mismatch found here is reported at the argument, not
+                        // where the argument's value or the parameter was defined.
+                        if let Shape::TypeErr(_, _) = actual_shape {
+                            return Shape::TypeErr(pos, msg);
+                        }
+                        return Shape::TypeErr(arg_expr.pos().clone(), msg);
                     }
                 }
             }
@@ -696,7 +702,7 @@ impl DeriveShape for Expression {
                         // Boolean operators require boolean operands
                         BinaryExprType::AND | BinaryExprType::OR => {
                             // Narrow to check compatibility
-                            let narrowed = left_shape.narrow(&right_shape, symbol_table);
+                            let narrowed = narrow_operands(def, &left_shape, &right_shape, symbol_table);
                             if let Shape::TypeErr(_, _) = &narrowed {
                                 narrowed
                             } else {
@@ -704,7 +710,7 @@ impl DeriveShape for Expression {
                             }
                         }
                         // Math operators narrow types
-                        _ => left_shape.narrow(&right_shape, symbol_table),
+                        _ => narrow_operands(def, &left_shape, &right_shape, symbol_table),
                     }
                 }
             }
@@ -785,6 +791,24 @@ impl DeriveShape for Expression {
                 }
             }
         }
+    }
+}
+
+/// Narrow the operand shapes of a binary operator against each other. An
+/// operand that is itself in error keeps its position. A mismatch between the
+/// operands is reported at the right operand, like the run-time error for the
+/// same expression, not where the operand's value was defined.
+fn narrow_operands(
+    def: &BinaryOpDef,
+    left_shape: &Shape,
+    right_shape: &Shape,
+    symbol_table: &mut BTreeMap<Rc<str>, Shape>,
+) -> Shape {
+    let narrowed = left_shape.narrow(right_shape, symbol_table);
+    match (left_shape, right_shape, narrowed) {
+        (Shape::TypeErr(_, _), _, narrowed) | (_, Shape::TypeErr(_, _), narrowed) => narrowed,
+        (_, _, Shape::TypeErr(_, msg)) => Shape::TypeErr(def.right.pos().clone(), msg),
+        (_, _, narrowed) => narrowed,
     }
 }
 
